@@ -24,7 +24,19 @@ fn check_relations_assignment(context: &CheckerContext) -> GenericResult<()> {
                 tour
             } else {
                 return match relation.type_field {
-                    RelationType::Any => Ok(()),
+                    RelationType::Any => {
+                        let is_served_by_other = context
+                            .solution
+                            .tours
+                            .iter()
+                            .any(|tour| get_activity_ids(tour).iter().any(|id| relation.jobs.contains(id)));
+
+                        if is_served_by_other {
+                            Err(format!("relation {idx} has jobs assigned to another tour").into())
+                        } else {
+                            Ok(())
+                        }
+                    }
                     _ => tour.map(|_| ()),
                 };
             };
